@@ -5,12 +5,20 @@ package main
 import (
 	"fmt"
 	"strings"
+
+	classifier "github.com/google/licenseclassifier/v2"
 )
 
 var thresholds = []float64{0.7, 0.75, 0.8, 0.9, 0.95, 0.99, 1.0}
 
 // genericInputs: inputs that exercise the whole pipeline for a given corpus.
 var matchFamily = "generic"
+
+// curBC: the corpus the inputs are generated for
+var curBC *builtCorpus
+
+// curThr: threshold of the corpus the inputs are generated for (boundary-density inputs)
+var curThr = 0.8
 
 // familyCase: which kinds of inputs a property's model stream concentrates on
 func familyCase(r *rng) int {
@@ -20,13 +28,13 @@ func familyCase(r *rng) int {
 	case "edited": // C02
 		return []int{2, 2, 4, 5, 5, 3, 10, 11, 9}[r.intn(9)]
 	case "shifted": // C07
-		return []int{1, 5, 5, 2, 10, 8}[r.intn(6)]
+		return []int{1, 5, 5, 2, 10, 8, 12, 13, 13}[r.intn(9)]
 	case "determinism": // C04
 		return []int{0, 2, 3, 8, 8, 9, 11, 11, 5}[r.intn(9)]
 	case "hostile": // C10
-		return []int{6, 7, 7, 4}[r.intn(4)]
+		return []int{6, 7, 7, 4, 12, 12}[r.intn(6)]
 	}
-	return r.intn(12)
+	return r.intn(14)
 }
 
 func genericInputs(r *rng, docs []corpusDoc, n int) []input {
@@ -79,6 +87,27 @@ func genericInputs(r *rng, docs []corpusDoc, n int) []input {
 			ins = append(ins, input{fmt.Sprintf("every-%dth-word:%s", k, d.name), []byte(x)})
 		case 11:
 			ins = append(ins, input{"phrase-strip:" + d.name, phraseStrip(r, d.text)})
+		case 12: // a document (whole, or its last words) as the very end of the input, no trailing newline
+			ws := strings.Fields(string(d.text))
+			a := 0
+			if r.chance(1, 3) {
+				a = r.intn(len(ws))
+			}
+			pre := []string{"", oovBlock(r, 1+r.intn(12), 2), string(synthText(r, 1+r.intn(20))) + " "}[r.intn(3)]
+			ins = append(ins, input{"at-end:" + d.name, []byte(pre + strings.Join(ws[a:], " "))})
+		case 13: // q-gram hit density at / next to the detectRuns boundary, X first, last or in the middle
+			var cc *classifier.Classifier
+			if curBC != nil && r.chance(2, 3) {
+				cc = curBC.c
+			}
+			x := string(boundarySub(r, d.text, curThr, 0, []int{0, 0, 0, -1, 1}[r.intn(5)], cc, d.name))
+			switch r.intn(3) {
+			case 0:
+				x = oovBlock(r, 1+r.intn(25), 2) + "\n" + x
+			case 1:
+				x = oovBlock(r, 1+r.intn(25), 2) + "\n" + x + "\n" + oovBlock(r, 1+r.intn(25), 2)
+			}
+			ins = append(ins, input{"boundary-density:" + d.name, []byte(x)})
 		}
 	}
 	return ins
@@ -105,15 +134,21 @@ func cmdMatch(seed uint64, tier, outdir string, family string) {
 		}
 	}
 	emb := sampleDocs(r, all, nEmb, "License/WTFPL/license.txt", "License/WTFPL/v2.txt", "License/MIT/license.txt")
-	run(buildCorpus(0.8, emb), genericInputs(r, emb, nIn))
-	run(buildCorpus(thresholds[r.intn(len(thresholds))], emb), genericInputs(r, emb, nIn/2))
+	curThr = 0.8
+	curBC = buildCorpus(0.8, emb)
+	run(curBC, genericInputs(r, emb, nIn))
+	curThr = thresholds[r.intn(len(thresholds))]
+	curBC = buildCorpus(curThr, emb)
+	run(curBC, genericInputs(r, emb, nIn/2))
 	for i := 0; i < nSyn; i++ {
 		docs := synthCorpus(r, 2+r.intn(10))
 		thr := thresholds[r.intn(len(thresholds))]
 		if r.chance(1, 6) {
 			thr = []float64{0.5, 0.3, 0.66, 0.85, 0.78}[r.intn(5)]
 		}
-		run(buildCorpus(thr, docs), genericInputs(r, docs, nSynIn))
+		curThr = thr
+		curBC = buildCorpus(thr, docs)
+		run(curBC, genericInputs(r, docs, nSynIn))
 	}
 	// threshold 0 (accepted by NewClassifier): inputs without words
 	z := buildCorpus(0, emb[:3])
